@@ -61,7 +61,8 @@ func readFrameOfType(fType byte, reader *bufio.Reader, isTCP bool) (frame, error
 		data, err = reader.ReadBytes('\r')
 	case 'd':
 		// Peek length
-		peeked, err := reader.Peek(2)
+		var peeked []byte
+		peeked, err = reader.Peek(2)
 		if err != nil {
 			return nil, err
 		}
@@ -69,11 +70,7 @@ func readFrameOfType(fType byte, reader *bufio.Reader, isTCP bool) (frame, error
 
 		// actual data
 		data = make([]byte, length)
-		var n int
-		for read := 0; read < length && err == nil; {
-			n, err = reader.Read(data[read:])
-			read += n
-		}
+		_, err = io.ReadFull(reader, data)
 	default:
 		return nil, fmt.Errorf("Unexpected frame type %c", fType)
 	}
